@@ -252,6 +252,9 @@ def jobs(tier):
         rng = sel.startswith('selectrange') or sel in ('selectin', 'selectnotin')
         out.append(dict(name='%s/M/n<=%d' % (sel, 2 if q or rng else 3), func='comparison',
                         params=dict(sel=sel, N=2 if q or rng else 3, dom='M', ragged=False), budget=B))
+        if sel in ('selecteq', 'selectlt', 'selectle', 'selectgt', 'selectge', 'selectrangeopenleft', 'selectin') or not q:
+            out.append(dict(name='%s/X/n<=%d' % (sel, 1 if q else 2), func='comparison',
+                            params=dict(sel=sel, N=1 if q else 2, dom='X', ragged=False), budget=B))
         out.append(dict(name='%s/O/ragged/n<=%d' % (sel, 2 if q else 3), func='comparison',
                         params=dict(sel=sel, N=2 if q else 3, dom='O', ragged=True), budget=B))
     for form in ('field', 'row', 'fieldmissing', 'rowmissing', 'expr'):
